@@ -84,7 +84,7 @@ theorem steal_takes (t e : Tree) (cls n : Nat) (policy : PolicyFn) (h : t.steal 
 
 /-- **`drain`** never panics, keeps the invariant and the allocation state; afterwards no slot
     holds a reservation and no tree is reserved (sequential, every reachable state). -/
-theorem drain_clears (c : Cfg) (ok : CfgOk c) (H : Nat → Prop) (m : Mem) (inv : UpperInv0 c H m) :
+theorem drain_clears (c : Cfg) (ok : CfgOk c) (H : Nat → Nat) (m : Mem) (inv : UpperInv0 c H m) :
     Runs m (drain c) (fun _ m' => UpperInv0 c H m' ∧ SameAlloc m m' ∧ (∀ s, SlotAbsent m' s) ∧
       ∀ (i : Nat) (t : Tree), m'.trees[i]? = some t → t.reserved = false) := drain_spec ok inv
 
@@ -92,7 +92,7 @@ theorem drain_clears (c : Cfg) (ok : CfgOk c) (H : Nat → Prop) (m : Mem) (inv 
     drained state, if some tree is unreserved with a positive counter, `get` succeeds (with a
     block that was free). For a tree that is not hidden (offline) the counter is exactly its
     number of free frames (`UpperInv.counterEq`). -/
-theorem get_after_drain_complete (c : Cfg) (ok : CfgOk c) (H : Nat → Prop) (m : Mem) (inv : UpperInv0 c H m)
+theorem get_after_drain_complete (c : Cfg) (ok : CfgOk c) (H : Nat → Nat) (m : Mem) (inv : UpperInv0 c H m)
     (habs : ∀ s, SlotAbsent m s) (r : Request) (ho : r.order = 0) (hcls : r.cls < 8) (hloc : r.locOk c)
     (hv : C08.ArgsValid c 0 r) (j : Nat) (hj : j < c.ntrees) (hu : Usable m j) :
     Runs m (get c none r) (fun res m' => (∃ x, res = .ok x) ∧ UpperInv0 c H m' ∧ GetOutcome c m 0 none res m') :=
@@ -101,8 +101,8 @@ theorem get_after_drain_complete (c : Cfg) (ok : CfgOk c) (H : Nat → Prop) (m 
 /-- the counter of a tree outside the hidden set with a free frame is positive when no slot
     caches its frames: the premise `Usable` of the completeness theorem is "a frame outside
     offline trees is free" -/
-theorem usable_of_free (c : Cfg) (H : Nat → Prop) (m : Mem) (inv : UpperInv0 c H m) (j : Nat) (t : Tree)
-    (ht : m.trees[j]? = some t) (hr : t.reserved = false) (hnh : ¬ H j) (hfree : 1 ≤ m.freeInTree c.geom j) : Usable m j := by
+theorem usable_of_free (c : Cfg) (H : Nat → Nat) (m : Mem) (inv : UpperInv0 c H m) (j : Nat) (t : Tree)
+    (ht : m.trees[j]? = some t) (hr : t.reserved = false) (hnh : H j = 0) (hfree : 1 ≤ m.freeInTree c.geom j) : Usable m j := by
   refine ⟨t, ht, hr, ?_⟩
   have h1 := inv.counterEq j t ht hnh
   have h2 := inv.slotFree_unreserved j t ht hr
@@ -110,15 +110,15 @@ theorem usable_of_free (c : Cfg) (H : Nat → Prop) (m : Mem) (inv : UpperInv0 c
 
 /-- a targeted allocation in a drained allocator: see C02 (`get` with a target succeeds only on
     a free block and returns exactly it). -/
-theorem targeted_exact (c : Cfg) (ok : CfgOk c) (H : Nat → Prop) (m : Mem) (inv : UpperInv0 c H m) (f : Nat) (r : Request)
+theorem targeted_exact (c : Cfg) (ok : CfgOk c) (H : Nat → Nat) (m : Mem) (inv : UpperInv0 c H m) (f : Nat) (r : Request)
     (hcls : r.cls < 8) (hloc : r.locOk c) (hv : C08.ArgsValid c f r) :
     Runs m (get c (some f) r) (fun res m' => UpperInv0 c H m' ∧ GetOutcome c m r.order (some f) res m') :=
   upper_get_spec ok inv (some f) r hcls hloc hv
 
 /-- **Targeted allocation after a drain, completeness.** -/
-theorem get_at_after_drain_complete (c : Cfg) (ok : CfgOk c) (H : Nat → Prop) (m : Mem) (inv : UpperInv0 c H m)
+theorem get_at_after_drain_complete (c : Cfg) (ok : CfgOk c) (H : Nat → Nat) (m : Mem) (inv : UpperInv0 c H m)
     (habs : ∀ s, SlotAbsent m s) (f : Nat) (r : Request) (hcls : r.cls < 8) (hloc : r.locOk c) (hv : C08.ArgsValid c f r)
-    (hfree : GetAllowed c m f r.order) (hnh : ¬ H (f / c.geom.treeFrames)) :
+    (hfree : GetAllowed c m f r.order) (hnh : H (f / c.geom.treeFrames) = 0) :
     Runs m (get c (some f) r) (fun res m' => (UpperInv0 c H m' ∧ GetOutcome c m r.order (some f) res m') ∧ ∃ x, res = .ok x) :=
   get_at_drained_complete ok inv habs f r hcls hloc hv hfree hnh
 
